@@ -10,6 +10,9 @@ use crate::{
     type_checker::type_checker_context::{TypeCheckerContext, WithType},
 };
 
+/// Largest number of elements a `from..to` range may produce.
+const MAX_RANGE_LENGTH: i64 = 10_000_000;
+
 #[derive(Debug, Serialize, Clone)]
 pub struct NumericRange {}
 
@@ -25,6 +28,20 @@ impl RoocFunction for NumericRange {
                 let from = from.as_integer_cast(context, fn_context)?;
                 let to = to.as_integer_cast(context, fn_context)?;
                 let to_inclusive = to_inclusive.as_boolean(context, fn_context)?;
+                // the range is materialised: a length that does not fit (up to
+                // 0..=i64::MAX) would abort the process on allocation, so it is an
+                // ordinary "too large" error instead
+                let length = (to as i128) - (from as i128) + if to_inclusive { 1 } else { 0 };
+                if length > MAX_RANGE_LENGTH as i128 {
+                    return Err(TransformError::TooLarge {
+                        message: format!(
+                            "A range can have at most {} elements",
+                            MAX_RANGE_LENGTH
+                        ),
+                        got: length.min(i64::MAX as i128) as i64,
+                        max: MAX_RANGE_LENGTH,
+                    });
+                }
                 if from >= 0 && to >= 0 {
                     let from = from as usize;
                     let to = to as usize;
